@@ -925,7 +925,7 @@ class Epoch(object):
         # First test the extremes of the table
         if (year + month / 12.0) <= list_years[0]:
             return 0
-        if (year + month / 12.0) >= list_years[-1]:
+        if (year + (month - 1) / 12.0) >= list_years[-1]:
             return LEAP_TABLE[list_years[-1]]
         lyear = (year + 0.25) if month <= 6 else (year + 0.75)
         idx = 0
